@@ -462,6 +462,10 @@ where
             continue;
         };
         if !cache.contains_key(&key) {
+            // rows arrive grouped by state: a small window of rebuilt states is enough
+            if cache.len() > 2048 {
+                cache.clear();
+            }
             let a = A::from_hist(&row["h"][0], ctx);
             let b = B::from_hist(&row["h"][1], ctx);
             let ea = if a_set { norm_tree_values(&ctx.norm_tree(fa)) } else { ctx.norm_tree(fa) };
